@@ -102,6 +102,14 @@ def read_graph(graph_raw) -> nx.DiGraph:
     G.graph["constraints"] = constraint_subpaths
 
     if n == 0:
+        # A graph without vertices can contain neither edges nor subpath constraints
+        if constraint_subpaths:
+            utils.logger.error(f"{__name__}: Graph {graph_id} has 0 vertices but subpath constraints.")
+            raise ValueError("Graph with 0 vertices cannot have subpath constraints.")
+        for line in graph_raw[idx:]:
+            if line.strip() and not line.lstrip().startswith('#'):
+                utils.logger.error(f"{__name__}: Graph {graph_id} has 0 vertices but lists edges: {line.rstrip()}")
+                raise ValueError(f"Graph with 0 vertices cannot list edges: {line.rstrip()}")
         utils.logger.info(f"Graph {graph_id} has 0 vertices.")
         return G
 
